@@ -107,6 +107,17 @@ def probes(rnd):
         out.append({"doc": doc, "sql": sql, "tag": "probe:" + tag, "seq": tag not in ("group-star", "count", "join-star-subq", "async-derived-join", "async-derived-join-both",
                                                                 "async-derived-join-right", "async-derived-join-star-subq"),
                     "wrapped": False, "pg": False, "arr": False, "consts": None, "mode": "seq", "q": None})
+    # the statement AROUND a derived table / CTE sorts the column an ASYNC call fills, over enough rows that an order taken from
+    # anything but the values (addresses of pending slots, completion order) differs from one evaluation to the next
+    order = list(range(400))
+    rnd.shuffle(order)
+    big = {"big": [{"n": i, "m": i % 7} for i in order]}
+    for tag, sql in [("async-derived-order-big", "SELECT d.v AS v FROM (SELECT ASYNC.VF_SLOW('t', n) AS v FROM big) d ORDER BY v DESC"),
+                     ("async-cte-order-big", "WITH c AS (SELECT ASYNC.VF_SLOW('t', n) AS v, m FROM big) SELECT v FROM c ORDER BY v"),
+                     ("async-derived-join-order-big", "SELECT z.v AS v FROM (SELECT d.v AS v FROM (SELECT n, ASYNC.VF_SLOW('t', n) AS v FROM big) d "
+                                                      "JOIN big e ON d.n = e.n) z ORDER BY v DESC LIMIT 50")]:
+        out.append({"doc": big, "sql": sql, "tag": "probe:" + tag, "seq": True, "wrapped": False, "pg": False, "arr": False, "consts": None,
+                    "mode": "seq", "q": None})
     return out
 
 
@@ -154,7 +165,9 @@ def explore(chk, rnd, tier):
         first = run_go([go_req(c) for c in allc])
         # the repetition runs in a fresh process and in the opposite order: whatever survives between calls inside
         # a process (memo, pooled buffer, cache) then differs between the two evaluations of a case
-        second = list(reversed(run_go([go_req(c) for c in reversed(allc)])))
+        # ... and there Exec is called a second time on the same *Query: what the first call left in the query object (memo,
+        # filtered rows, slots) must not reach the second result
+        second = list(reversed(run_go([dict(go_req(c), reExec=True) for c in reversed(allc)])))
         for c, a, b in zip(allc, first, second):
             chk.count("runs")
             if (c.get("tag") or "").startswith("probe:"):
@@ -183,6 +196,16 @@ def explore(chk, rnd, tier):
                     continue
                 chk.add_violation("nondeterministic-result", {"sql": c["sql"], "doc": c["doc"], "first": a, "second": b})
                 break
+            if b.get("r2") is not None:
+                chk.count("re-exec:" + str(b.get("r2")))
+                v2 = dec_val(b["v2"]) if b.get("r2") == "ok" else None
+                if b.get("r2") != "ok" or b.get("nonPlain2") or as_multiset(v2) != as_multiset(vb) or (c.get("seq") and canon(v2) != canon(vb)):
+                    if known_probe(chk, c, "re-exec-differs", None):
+                        continue
+                    chk.add_violation("re-exec-differs", {"sql": c["sql"], "doc": c["doc"], "first_exec": {"r": b.get("r"), "v": b.get("v")},
+                                                          "second_exec_same_query": {"r": b.get("r2"), "v": b.get("v2"), "msg": b.get("msg2"),
+                                                                                     "nonPlain": b.get("nonPlain2")}})
+                    break
             if (c.get("tag") or "").startswith("probe:") or "AS k" in c["sql"] or "calc" in c["sql"]:
                 nt.add(c["sql"] + canon(c["doc"]))
         done += m
